@@ -63,6 +63,7 @@ static void mutex_tasks()
                 case S_LOCK:
                     m.lock();
                     enter(s, m);
+                    pmc_point("in-critical-section");    // the owner can be pre-empted while it holds the lock
                     leave(s);
                     m.unlock();
                     break;
@@ -70,6 +71,7 @@ static void mutex_tasks()
                     if (m.try_lock())
                     {
                         enter(s, m);
+                        pmc_point("in-critical-section");
                         leave(s);
                         m.unlock();
                     }
